@@ -200,6 +200,31 @@ fn byte_level_cases(tier: Tier) -> Vec<String> {
             }
         }
     }
+    // thorough: two simultaneous edits (every pair of positions x 5 structural characters each) of the shorter definitions
+    if tier == Tier::Thorough {
+        let two: [&str; 5] = ["|", "=", " ", "#", ":"];
+        let mut short: Vec<String> = catalogue().iter().map(|e| e.def.to_string()).filter(|d| d.chars().count() <= 36).collect();
+        short.extend(["m:x a=$b(3) b=(4) | inv m:y", "proj=utm zone=32 inv", "stack push=1,2 | stack roll=2,1"].iter().map(|s| s.to_string()));
+        for def in short {
+            let chars: Vec<char> = def.chars().collect();
+            for i in 0..chars.len() {
+                for j in i + 1..chars.len() {
+                    for a in two {
+                        for b in two {
+                            let mut v: String = chars[..i].iter().collect();
+                            v.push_str(a);
+                            v.extend(chars[i + 1..j].iter());
+                            v.push_str(b);
+                            v.extend(chars[j + 1..].iter());
+                            if seen.insert(v.clone()) {
+                                cases.push(json!({"kind": "def", "ctx": "plain", "def": v}).to_string());
+                            }
+                        }
+                    }
+                }
+            }
+        }
+    }
     cases
 }
 
